@@ -5,8 +5,9 @@ From Coq Require Import String List Ascii ZArith NArith Lia Bool Arith.
 Import ListNotations.
 Local Open Scope list_scope.
 
-Definition byte := ascii.
-Definition bytes := list ascii.
+(* notations, not definitions: [list byte] and [list ascii] must be syntactically equal for rewrite/lia *)
+Notation byte := ascii (only parsing).
+Notation bytes := (list ascii) (only parsing).
 
 (* literal: B "GET" *)
 Definition B (s : string) : bytes := list_ascii_of_string s.
